@@ -147,6 +147,11 @@ class Interp:
                     if op == 'Le': return ('const', l[1] <= r[1])
                     if op == 'Gt': return ('const', l[1] > r[1])
                     if op == 'Ge': return ('const', l[1] >= r[1])
+                    if op in ('Mul', 'Add', 'Sub') and isinstance(l[1], int) and isinstance(r[1], int):
+                        return ('const', {'Mul': l[1] * r[1], 'Add': l[1] + r[1], 'Sub': l[1] - r[1]}[op])
+                    if op in ('MulWithOverflow', 'AddWithOverflow', 'SubWithOverflow') and isinstance(l[1], int) and isinstance(r[1], int):
+                        v = {'M': l[1] * r[1], 'A': l[1] + r[1], 'S': l[1] - r[1]}[op[0]]
+                        return ('tuple', [('const', v), ('const', False)])
                     if op in ('BitOr',): return ('const', l[1] | r[1])
                     if op in ('BitAnd',): return ('const', l[1] & r[1])
                 except TypeError:
